@@ -1,8 +1,55 @@
 (** C12 — rolling back to a retained height restores exactly that height's state.
     Only statements, each closed by [exact]. *)
 From BX Require Import Base.Prelude Base.Sha256 Model.JsonAcct Model.Merkle Model.StateLedger Model.LedgerSpec
-  Proofs.LedgerWitness.
+  Proofs.LedgerWitness Proofs.RefineMain Proofs.RefineProps.
 Local Open Scope N_scope.
+
+(** C12_rollback_restores.  For EVERY block history (any sequence of the proved operations from
+    the empty ledger, inside the domain) and every rollback in it, the repaired model's observables
+    agree with the specification, and the specification's Rollback(t), for t inside the retained
+    window, makes every balance, nonce and storage key read as recorded by Commit(t), continues the
+    root chain from the root recorded at t, and empties the in-block state
+    ([C12_spec_rollback_restores], by definition of the specification).  Contract code is covered by
+    correspondence only (SetCode is outside the proved operations). *)
+Theorem C12_rollback_restores : forall (e : env) (ops : list op),
+  forallb proved_op ops = true ->
+  spec_agree_P wf_thm_b false e spec0 ops (snd (run e cfg_fixed st0 ops)).
+Proof. exact refine_from_empty. Qed.
+Print Assumptions C12_rollback_restores.
+
+Theorem C12_spec_rollback_restores : forall e s t x S r,
+  (sp_max s <? t) = false -> ((t <? sp_min s) && negb ((sp_min s =? 1) && (t =? 0))) = false ->
+  (sp_max s =? t) = false -> hist_get s t = Some (S, r) ->
+  let '(s', ex) := spec_step e s (Rollback t) x in
+  ex = ERes R_ok /\ sp_cur s' = S /\ sp_fl s' = S /\ sp_prev s' = r /\ sp_max s' = t.
+Proof. exact spec_rollback_restores. Qed.
+Print Assumptions C12_spec_rollback_restores.
+
+(** C12_refused_frame: in every state of the model (any configuration), a rollback to a height above
+    the head or below the retained window (except the coded min = 1, target = 0 case) returns the
+    corresponding error and leaves the whole state untouched; and these are the only refusals. *)
+Theorem C12_refused_frame : forall c m t,
+  (s_max m <? t) = true \/ ((t <? s_min m) && negb ((s_min m =? 1) && (t =? 0))) = true ->
+  fst (do_rollback c m t) = m /\
+  (snd (do_rollback c m t) = ORes R_higher \/ snd (do_rollback c m t) = ORes R_toomuch).
+Proof. exact rollback_refused_frame. Qed.
+Print Assumptions C12_refused_frame.
+
+Theorem C12_refused_iff : forall c m t,
+  (snd (do_rollback c m t) = ORes R_higher <-> s_max m < t) /\
+  (snd (do_rollback c m t) = ORes R_toomuch <-> t <= s_max m /\ t < s_min m /\ ~ (s_min m = 1 /\ t = 0)).
+Proof. exact rollback_refused_iff. Qed.
+Print Assumptions C12_refused_iff.
+
+(** C12_reexec_same_partial: that re-executing the same blocks after a rollback reproduces the same
+    roots is shown on a concrete history ([C12_example_reexec]) and follows in general from
+    C10_root_function_of_changes once both executions reach states with the same contributions; the
+    general relational statement is tied by correspondence (re-execution stream of the check). *)
+Example C12_example_reexec :
+  let outs := snd (run E0 cfg_fixed st0 h_reexec) in
+  nth 5 outs ONone = nth 13 outs ONone /\ nth 8 outs ONone = nth 16 outs ONone /\
+  roots_check (flush_recs cfg_fixed [h_reexec]) = 0.
+Proof. exact reexec_same_roots. Qed.
 
 (** expected refutation (pinned tree, flag [d_addstate_origin]): AddState on a key that exists in
     the store journals prev = nil; after Rollback the key is deleted instead of restored *)
